@@ -468,9 +468,10 @@ class _IncomingPacketHandler(Thread):
             self.cf.packet_received.call(pk)
 
             found = False
-            for cb in (cb for cb in self.cb
+            # Iterate over a copy, the callbacks may add or remove callbacks
+            for cb in [cb for cb in self.cb
                        if cb.port == (pk.port & cb.port_mask) and
-                       cb.channel == (pk.channel & cb.channel_mask)):
+                       cb.channel == (pk.channel & cb.channel_mask)]:
                 try:
                     cb.callback(pk)
                 except Exception:  # pylint: disable=W0703
